@@ -87,6 +87,10 @@ def generate(seed, tier, k):
         doc["bc"] = {"case": "custom", "list": [{"name": "fix", "fx": "min", "skip": [False] + [r.random() < 0.5 for _ in range(dim - 1)], "value": 0.0}, {"name": "fix2", "fy": "max", "skip": [True, False] + ([True] if dim == 3 else []), "value": 0.0}]}
     else:
         doc["bc"] = {"case": "custom", "list": [{"name": "fix", "points": {"axis": 0, "at": "min", "first": 3}, "value": 0.0}]}
+    if mixed and bc in ("partial", "clamp") and gen.kpick(seed, "dual-boundary", 2) == 0:
+        # a support on a dual field as well (the pressure of one cell held at zero); the world puts
+        # it at a seed-derived place of the boundary dictionary (first / between / last)
+        doc["bc"]["extra"] = [{"name": "dualfix", "field": 1, "points": [0], "value": 0.0}]
     ops = []
     nops = r.choice([2, 3, 4, 5])
     for i in range(nops):
